@@ -1,14 +1,518 @@
-//! Suite `pool` (stub: replaced by the owner of the suite).
+//! Suite `pool` (C14, and the drain clause of C15): the REAL `ThreadPool` of
+//! varlink/src/server.rs driven along forced schedules through the
+//! `cfg(varlink_rust_verif)` probe points.
+//!
+//! Case:  (pool <initial> <max> (steps <step>*))
+//!   step = E        acceptor: `execute(job)` up to the probe after `send`
+//!        | G        acceptor: growth check, `execute` returns
+//!        | D        a worker has taken the next job off the channel
+//!        | (S j)    the worker holding abstract job j starts its closure
+//!        | (F j)    the closure of job j returns (the peer closes the connection)
+//!        | (X j)    that worker decrements the busy counter and goes back to `recv`
+//!        | P        the acceptor drops the pool (Terminate per worker, join)
+//! Abstract job ids count the E steps; jobs are interchangeable, the harness maps
+//! them to the closures that actually start.
+//!
+//! Observation: (obs (o <enabled> <busy> <workers> <running>)* (end <finished-jobs> <joined>))
+//! one `o` per step, taken after the step; a step that is not enabled is skipped.
+use crate::rng::Rng;
 use crate::sx::{self, Sx};
 use crate::{Case, Ctx, Suite};
+use std::collections::HashMap;
+use std::sync::atomic::{AtomicUsize, Ordering};
+use std::sync::mpsc::{channel, Receiver, Sender};
+use std::sync::{Arc, Condvar, Mutex, RwLock};
+use std::thread::{self, ThreadId};
+use std::time::{Duration, Instant};
+use varlink::verif_hooks;
 
 pub struct PoolSuite;
 
-impl Suite for PoolSuite {
-    fn generate(&self, _ctx: &Ctx) -> Vec<Case> {
-        Vec::new()
+const WAIT: Duration = Duration::from_millis(3000);
+
+#[derive(Default)]
+struct CtlState {
+    waiting: Vec<(ThreadId, &'static str, usize)>,
+    grants: Vec<(ThreadId, &'static str)>,
+    log: Vec<(ThreadId, &'static str, usize)>,
+    release_all: bool,
+}
+
+struct Ctl {
+    st: Mutex<CtlState>,
+    cv: Condvar,
+}
+
+const AUTO: [&str; 5] = ["worker-spawned", "execute-done", "busy-inc", "busy-dec", "terminate"];
+
+impl Ctl {
+    fn probe(&self, ev: &'static str, val: usize) {
+        let tid = thread::current().id();
+        let mut st = self.st.lock().unwrap();
+        st.log.push((tid, ev, val));
+        if AUTO.contains(&ev) || st.release_all {
+            self.cv.notify_all();
+            return;
+        }
+        st.waiting.push((tid, ev, val));
+        self.cv.notify_all();
+        loop {
+            if st.release_all {
+                break;
+            }
+            if let Some(i) = st.grants.iter().position(|g| g.0 == tid && g.1 == ev) {
+                st.grants.remove(i);
+                break;
+            }
+            st = self.cv.wait(st).unwrap();
+        }
+        if let Some(i) = st.waiting.iter().position(|w| w.0 == tid && w.1 == ev) {
+            st.waiting.remove(i);
+        }
+        self.cv.notify_all();
     }
-    fn run(&self, _ctx: &Ctx, _input: &Sx) -> Sx {
-        sx::atom("stub")
+    /// wait until `f` holds on the state (or timeout)
+    fn wait_for<T>(&self, f: impl Fn(&CtlState) -> Option<T>) -> Option<T> {
+        let deadline = Instant::now() + WAIT;
+        let mut st = self.st.lock().unwrap();
+        loop {
+            if let Some(v) = f(&st) {
+                return Some(v);
+            }
+            let now = Instant::now();
+            if now >= deadline {
+                return None;
+            }
+            let (g, _) = self.cv.wait_timeout(st, deadline - now).unwrap();
+            st = g;
+        }
+    }
+    fn grant(&self, tid: ThreadId, ev: &'static str) {
+        let mut st = self.st.lock().unwrap();
+        st.grants.push((tid, ev));
+        self.cv.notify_all();
+    }
+}
+
+enum Cmd {
+    Exec(usize),
+    Drop,
+}
+
+enum Ack {
+    Executed(usize), // number of workers after execute
+    Dropped,
+}
+
+struct JobCtl {
+    started: Mutex<Vec<usize>>,            // actual ids in start order
+    finish: Mutex<HashMap<usize, bool>>,   // actual id -> may return
+    finished: Mutex<Vec<usize>>,
+    cv: Condvar,
+    running: AtomicUsize,
+}
+
+fn run_schedule(initial: usize, max: usize, steps: &[Sx]) -> Sx {
+    let ctl = Arc::new(Ctl { st: Mutex::new(CtlState::default()), cv: Condvar::new() });
+    {
+        let c = ctl.clone();
+        verif_hooks::set_probe(Some(Arc::new(move |ev, val| c.probe(ev, val))));
+    }
+    let jobs = Arc::new(JobCtl {
+        started: Mutex::new(Vec::new()),
+        finish: Mutex::new(HashMap::new()),
+        finished: Mutex::new(Vec::new()),
+        cv: Condvar::new(),
+        running: AtomicUsize::new(0),
+    });
+    let pool = verif_hooks::Pool::new(initial, max);
+    let busy_handle: Arc<RwLock<usize>> = pool.busy_counter();
+    let mut workers = pool.num_workers();
+    let (cmd_tx, cmd_rx): (Sender<Cmd>, Receiver<Cmd>) = channel();
+    let (ack_tx, ack_rx): (Sender<Ack>, Receiver<Ack>) = channel();
+    let acc_jobs = jobs.clone();
+    let acceptor = thread::spawn(move || {
+        let mut pool = Some(pool);
+        for c in cmd_rx {
+            match c {
+                Cmd::Exec(id) => {
+                    let j = acc_jobs.clone();
+                    pool.as_mut().unwrap().execute(move || {
+                        j.running.fetch_add(1, Ordering::SeqCst);
+                        j.started.lock().unwrap().push(id);
+                        j.cv.notify_all();
+                        let mut f = j.finish.lock().unwrap();
+                        while !f.get(&id).copied().unwrap_or(false) {
+                            f = j.cv.wait(f).unwrap();
+                        }
+                        drop(f);
+                        j.running.fetch_sub(1, Ordering::SeqCst);
+                        j.finished.lock().unwrap().push(id);
+                        j.cv.notify_all();
+                    });
+                    let n = pool.as_ref().unwrap().num_workers();
+                    let _ = ack_tx.send(Ack::Executed(n));
+                }
+                Cmd::Drop => {
+                    drop(pool.take());
+                    let _ = ack_tx.send(Ack::Dropped);
+                }
+            }
+        }
+        drop(pool.take());
+    });
+    let acc_tid = acceptor.thread().id();
+
+    // shadow of the abstract state, used only to decide which steps are attempted
+    let mut next_job = 0usize;
+    let mut acc_sent = false;
+    let mut dropped = false;
+    let mut queue: Vec<Option<usize>> = Vec::new(); // abstract ids waiting; None = Terminate
+    let mut term_seen = 0usize;
+    let mut held: Vec<usize> = Vec::new(); // dequeued, not started
+    let mut running: HashMap<usize, usize> = HashMap::new(); // abstract -> actual
+    let mut done: HashMap<usize, (usize, ThreadId)> = HashMap::new(); // abstract -> (actual, thread at job-done)
+    let mut deq_seen = 0usize; // dequeued events consumed by D steps
+    let mut started_seen = 0usize;
+    let mut dec_seen = 0usize;
+    let mut idle_workers = workers;
+    let mut obs: Vec<Sx> = Vec::new();
+    let mut drop_pending = false;
+
+    for st in steps {
+        let (tag, arg): (String, usize) = match st {
+            Sx::Atom(a) => (a.clone(), 0),
+            Sx::List(l) => (l[0].as_atom().unwrap().to_string(), l[1].as_usize().unwrap()),
+        };
+        let mut enabled = false;
+        let mut timed_out = false;
+        match tag.as_str() {
+            "E" => {
+                if !acc_sent && !dropped {
+                    enabled = true;
+                    cmd_tx.send(Cmd::Exec(next_job)).unwrap();
+                    if ctl.wait_for(|s| s.waiting.iter().find(|w| w.0 == acc_tid && w.1 == "enqueued").map(|_| ())).is_none() {
+                        timed_out = true;
+                    }
+                    queue.push(Some(next_job));
+                    next_job += 1;
+                    acc_sent = true;
+                }
+            }
+            "G" => {
+                if acc_sent {
+                    enabled = true;
+                    ctl.grant(acc_tid, "enqueued");
+                    match ack_rx.recv_timeout(WAIT) {
+                        Ok(Ack::Executed(n)) => {
+                            idle_workers += n - workers;
+                            workers = n;
+                        }
+                        _ => timed_out = true,
+                    }
+                    acc_sent = false;
+                }
+            }
+            "D" => {
+                if idle_workers > 0 && !queue.is_empty() {
+                    enabled = true;
+                    match queue.remove(0) {
+                        Some(j) => {
+                            let want = deq_seen + 1;
+                            if ctl.wait_for(|s| if s.log.iter().filter(|e| e.1 == "dequeued").count() >= want { Some(()) } else { None }).is_none() {
+                                timed_out = true;
+                            }
+                            deq_seen += 1;
+                            held.push(j);
+                        }
+                        None => {
+                            let want = term_seen + 1;
+                            if ctl.wait_for(|s| if s.log.iter().filter(|e| e.1 == "terminate").count() >= want { Some(()) } else { None }).is_none() {
+                                timed_out = true;
+                            }
+                            term_seen += 1;
+                        }
+                    }
+                    idle_workers -= 1;
+                }
+            }
+            "S" => {
+                if let Some(p) = held.iter().position(|j| *j == arg) {
+                    enabled = true;
+                    // release the oldest worker parked at "dequeued"
+                    let who = ctl.wait_for(|s| s.waiting.iter().find(|w| w.1 == "dequeued").map(|w| w.0));
+                    match who {
+                        Some(tid) => {
+                            ctl.grant(tid, "dequeued");
+                            let want = started_seen + 1;
+                            let deadline = Instant::now() + WAIT;
+                            let mut g = jobs.started.lock().unwrap();
+                            while g.len() < want && Instant::now() < deadline {
+                                let (gg, _) = jobs.cv.wait_timeout(g, Duration::from_millis(50)).unwrap();
+                                g = gg;
+                            }
+                            if g.len() >= want {
+                                let actual = g[want - 1];
+                                started_seen += 1;
+                                running.insert(arg, actual);
+                            } else {
+                                timed_out = true;
+                            }
+                        }
+                        None => timed_out = true,
+                    }
+                    held.remove(p);
+                }
+            }
+            "F" => {
+                if let Some(actual) = running.get(&arg).copied() {
+                    enabled = true;
+                    let before: Vec<ThreadId> = ctl.st.lock().unwrap().waiting.iter().filter(|w| w.1 == "job-done").map(|w| w.0).collect();
+                    jobs.finish.lock().unwrap().insert(actual, true);
+                    jobs.cv.notify_all();
+                    let who = ctl.wait_for(|s| s.waiting.iter().find(|w| w.1 == "job-done" && !before.contains(&w.0)).map(|w| w.0));
+                    match who {
+                        Some(tid) => {
+                            done.insert(arg, (actual, tid));
+                        }
+                        None => timed_out = true,
+                    }
+                    running.remove(&arg);
+                }
+            }
+            "X" => {
+                if let Some((_, tid)) = done.get(&arg).copied() {
+                    enabled = true;
+                    ctl.grant(tid, "job-done");
+                    let want = dec_seen + 1;
+                    if ctl.wait_for(|s| if s.log.iter().filter(|e| e.1 == "busy-dec").count() >= want { Some(()) } else { None }).is_none() {
+                        timed_out = true;
+                    }
+                    dec_seen += 1;
+                    done.remove(&arg);
+                    idle_workers += 1;
+                }
+            }
+            "P" => {
+                if !acc_sent && !dropped {
+                    enabled = true;
+                    cmd_tx.send(Cmd::Drop).unwrap();
+                    dropped = true;
+                    drop_pending = true;
+                    for _ in 0..workers {
+                        queue.push(None);
+                    }
+                    // give the Terminate messages time to be queued behind the jobs
+                    thread::sleep(Duration::from_millis(5));
+                }
+            }
+            _ => {}
+        }
+        if timed_out {
+            obs.push(sx::list(vec![sx::atom("timeout")]));
+            break;
+        }
+        let busy = *busy_handle.read().unwrap();
+        obs.push(sx::list(vec![
+            sx::atom("o"),
+            sx::boolean(enabled),
+            sx::nat(busy),
+            sx::nat(workers),
+            sx::nat(jobs.running.load(Ordering::SeqCst)),
+        ]));
+    }
+
+    // cleanup: let everything run to completion
+    {
+        let mut st = ctl.st.lock().unwrap();
+        st.release_all = true;
+        ctl.cv.notify_all();
+    }
+    {
+        let mut f = jobs.finish.lock().unwrap();
+        for id in 0..next_job {
+            f.insert(id, true);
+        }
+        jobs.cv.notify_all();
+    }
+    if acc_sent {
+        let _ = ack_rx.recv_timeout(WAIT);
+    }
+    if !dropped {
+        let _ = cmd_tx.send(Cmd::Drop);
+        drop_pending = true;
+    }
+    let mut joined = false;
+    if drop_pending {
+        let deadline = Instant::now() + WAIT;
+        while Instant::now() < deadline {
+            match ack_rx.recv_timeout(Duration::from_millis(100)) {
+                Ok(Ack::Dropped) => {
+                    joined = true;
+                    break;
+                }
+                Ok(_) => {}
+                Err(_) => {}
+            }
+        }
+    }
+    drop(cmd_tx);
+    if joined {
+        let _ = acceptor.join();
+    }
+    verif_hooks::set_probe(None);
+    let mut fin = jobs.finished.lock().unwrap().clone();
+    fin.sort();
+    obs.push(sx::list(vec![sx::atom("end"), sx::nat(fin.len()), sx::nat(next_job), sx::boolean(joined)]));
+    sx::tagged("obs", obs)
+}
+
+fn step_sx(tag: &str, j: Option<usize>) -> Sx {
+    match j {
+        None => sx::atom(tag),
+        Some(j) => sx::list(vec![sx::atom(tag), sx::nat(j)]),
+    }
+}
+
+/// random walk over the abstract steps, biased towards enabled ones
+fn gen_schedule(rng: &mut Rng, initial: usize, max: usize, len: usize) -> Vec<Sx> {
+    let mut steps = Vec::new();
+    let mut next_job = 0usize;
+    let mut acc_sent = false;
+    let mut queue: Vec<usize> = Vec::new();
+    let mut held: Vec<usize> = Vec::new();
+    let mut running: Vec<usize> = Vec::new();
+    let mut done: Vec<usize> = Vec::new();
+    let _ = (initial, max);
+    for _ in 0..len {
+        let mut options: Vec<(&str, Option<usize>)> = Vec::new();
+        if !acc_sent && next_job < 7 {
+            options.push(("E", None));
+            options.push(("E", None));
+        }
+        if acc_sent {
+            options.push(("G", None));
+            options.push(("G", None));
+        }
+        if !queue.is_empty() {
+            options.push(("D", None));
+        }
+        for j in &held {
+            options.push(("S", Some(*j)));
+        }
+        for j in &running {
+            options.push(("F", Some(*j)));
+        }
+        for j in &done {
+            options.push(("X", Some(*j)));
+        }
+        if rng.chance(1, 12) {
+            // a step that may well be disabled
+            options.push((*rng.pick(&["E", "G", "D"]), None));
+            options.push(("S", Some(rng.below(next_job + 1))));
+        }
+        if options.is_empty() {
+            break;
+        }
+        let (t, j) = *rng.pick(&options);
+        match (t, j) {
+            ("E", _) if !acc_sent => {
+                queue.push(next_job);
+                next_job += 1;
+                acc_sent = true;
+            }
+            ("G", _) if acc_sent => acc_sent = false,
+            ("D", _) if !queue.is_empty() => {
+                // may be disabled when no idle worker exists: the shadow here is optimistic,
+                // model and harness decide for themselves
+            }
+            _ => {}
+        }
+        // keep the generator's picture roughly in sync (optimistic)
+        if t == "D" && !queue.is_empty() {
+            held.push(queue.remove(0));
+        } else if t == "S" {
+            if let Some(p) = held.iter().position(|x| Some(*x) == j) {
+                running.push(held.remove(p));
+            }
+        } else if t == "F" {
+            if let Some(p) = running.iter().position(|x| Some(*x) == j) {
+                done.push(running.remove(p));
+            }
+        } else if t == "X" {
+            if let Some(p) = done.iter().position(|x| Some(*x) == j) {
+                done.remove(p);
+            }
+        }
+        steps.push(step_sx(t, j));
+    }
+    steps
+}
+
+fn mk_case(initial: usize, max: usize, steps: Vec<Sx>) -> Sx {
+    sx::tagged("pool", vec![sx::nat(initial), sx::nat(max), sx::tagged("steps", steps)])
+}
+
+impl Suite for PoolSuite {
+    fn generate(&self, ctx: &Ctx) -> Vec<Case> {
+        let mut rng = Rng::new(ctx.seed ^ 0x706f6f6c);
+        let mut cases = Vec::new();
+        if let Ok(txt) = std::fs::read_to_string(concat!(env!("CARGO_MANIFEST_DIR"), "/corpus/pool.txt")) {
+            for l in txt.lines() {
+                if let Some(s) = sx::parse(l) {
+                    cases.push(Case { input: s, tags: vec!["corpus".into()] });
+                }
+            }
+        }
+        // fill the pool: n connections arrive and are served one after the other, none finishes
+        for initial in 1..=3usize {
+            for max in 1..=4usize {
+                let mut steps = Vec::new();
+                for j in 0..(max + 2) {
+                    steps.push(step_sx("E", None));
+                    steps.push(step_sx("G", None));
+                    steps.push(step_sx("D", None));
+                    steps.push(step_sx("S", Some(j)));
+                }
+                cases.push(Case { input: mk_case(initial, max, steps), tags: vec!["fill".into(), format!("cfg:{}x{}", initial, max)] });
+                // burst: all arrivals before any worker marks itself busy
+                let mut steps = Vec::new();
+                for _ in 0..(max + 1) {
+                    steps.push(step_sx("E", None));
+                    steps.push(step_sx("G", None));
+                    steps.push(step_sx("D", None));
+                }
+                for j in 0..(max + 1) {
+                    steps.push(step_sx("S", Some(j)));
+                }
+                cases.push(Case { input: mk_case(initial, max, steps), tags: vec!["burst".into(), format!("cfg:{}x{}", initial, max)] });
+            }
+        }
+        let n = if ctx.thorough { 600 } else { 90 };
+        for _ in 0..n {
+            let initial = rng.range(1, 3);
+            let max = rng.range(1, 4);
+            let len = rng.range(4, if ctx.thorough { 60 } else { 36 });
+            let mut steps = gen_schedule(&mut rng, initial, max, len);
+            let mut tags = vec!["random".to_string(), format!("cfg:{}x{}", initial, max)];
+            if rng.chance(1, 4) {
+                steps.push(step_sx("P", None));
+                tags.push("drop".into());
+                // a few more worker steps while the acceptor is joining
+                let more = gen_schedule(&mut rng, initial, max, 0);
+                steps.extend(more);
+            }
+            tags.push(format!("len:{}", match steps.len() { 0..=9 => "0-9", 10..=19 => "10-19", 20..=39 => "20-39", _ => "40+" }));
+            cases.push(Case { input: mk_case(initial, max, steps), tags });
+        }
+        cases
+    }
+
+    fn run(&self, _ctx: &Ctx, input: &Sx) -> Sx {
+        let l = input.as_list().expect("case");
+        let initial = l[1].as_usize().unwrap();
+        let max = l[2].as_usize().unwrap();
+        let steps = &l[3].as_list().unwrap()[1..];
+        run_schedule(initial, max, steps)
     }
 }
